@@ -10,6 +10,8 @@ import SF.Gen.Adapters
 import SF.Gen.ErrFlow
 import SF.Gen.Globals
 import SF.Gen.Alloc
+import SF.Gen.UnsafeSites
+import SF.Gen.RefMethods
 import SF.Event
 import SF.Cbor.Defs
 import SF.Ubjson.Defs
@@ -107,6 +109,36 @@ theorem unfoldAllocSites :
     SF.Gen.Alloc.unfoldFacts.all
       (fun f => (f.2.2.1 == "const" || f.2.2.1 == "arrPreallocLen") &&
                 (f.2.2.2 == "const" || f.2.2.2 == "arrPreallocLen" || f.2.2.2 == "none")) = true := by
+  decide
+
+/-- C15 (consumer side): every `OnStringRef` / `OnKeyRef` method of package gotype does one of
+five things with the transient bytes it is handed: ignores them (error and ignore states),
+forwards them to another by-reference method, COPIES them (`string(v)`), interns them through
+the key cache (`symbolCache.get`, which copies on a miss — C20), or (the struct unfolder only)
+takes a zero-copy view that `unfold_struct.go:OnKeyRef` passes to its own `OnKey`, i.e. a map
+lookup.  No other use (store, return, append, …) exists.  SSA facts, regenerated. -/
+theorem refConsumersCopy :
+    SF.Gen.RefMethods.facts.all (fun f =>
+      f.2 == "-" || f.2 == "copy-to-string" || f.2 == "call:get" ||
+      f.2 == "call:OnKeyRef" || f.2 == "call:OnStringRef" ||
+      (f.1 == "unfolderStruct.OnKeyRef" && f.2 == "call:bytes2Str")) = true := by
+  decide
+
+/-- C15 (zero-copy conversions): outside internal/unsafe a `string → []byte` view is only ever
+passed to a function that reads it (`Parse`, the encoders' `string` / `write`), and a
+`[]byte → string` view is only used for a lookup / number parse, or handed over BY VALUE at
+exactly four sites: the struct unfolder's field lookup, the JSON encoder's `OnStringRef`
+(consumed inside the call), and the JSON parser's `stepString` / `stepDictKey`, where it is
+guarded by the `allocated` flag (fresh memory from `unquote`; ops `alias`, `aliasrec` test the
+guard).  A new site, or a new use of an existing one, breaks this obligation. -/
+theorem unsafeSitesKnown :
+    SF.Gen.UnsafeSites.facts.all (fun f =>
+      (f.2.1 == "str2Bytes" && (f.2.2 == "call:Parse" || f.2.2 == "call:string" || f.2.2 == "call:write")) ||
+      (f.2.1 == "bytes2Str" && (f.2.2 == "call:lookup" || f.2.2 == "call:ParseFloat")) ||
+      (f.2.1 == "bytes2Str" && f.2.2 == "call:OnKey" &&
+        (f.1 == "gotype/unfold_struct.go:OnKeyRef" || f.1 == "json/parse.go:stepDictKey")) ||
+      (f.2.1 == "bytes2Str" && f.2.2 == "call:OnString" &&
+        (f.1 == "json/parse.go:stepString" || f.1 == "json/visitor.go:OnStringRef"))) = true := by
   decide
 
 end SF.GenCheck
